@@ -11,6 +11,7 @@ import hashlib
 import inspect
 import json
 import os
+import re
 import sys
 import time
 import traceback
@@ -33,8 +34,18 @@ class Path:
         self.unknown = []  # clause labels undecided
         self.decided = {}  # clause -> count
         self.notes = []
+        self.hyp = None  # optional callable returning the hypothesis formula of all obligations
 
     def require(self, prop, clause, detail=None):
+        if self.hyp is not None:
+            h = self.hyp()
+            if not (h.kind == "const" and h.a):
+                if prop is True:
+                    pass
+                elif prop is False:
+                    prop = ~h
+                else:
+                    prop = core.f_or(~h, prop)
         r = self.c.prove(prop, clause)
         if r == "holds":
             self.decided[clause] = self.decided.get(clause, 0) + 1
@@ -74,6 +85,7 @@ class Check:
     engine_opts = {}
     expected_events = ()  # event kinds that are part of the precondition (path excluded)
     violation_events = ()  # event kinds that are candidate violations
+    probe_events = ()  # event kinds ending the symbolic claim; one witness per such path is replayed concretely
     stubs = []
     assumptions = []
     bounds_text = ""
@@ -94,6 +106,10 @@ class Check:
 
     def patches(self, cfg):
         return self.extra_patches
+
+    def same_outcome(self, cfg, sym_out, real_out):
+        """compare the discrete outcome of a symbolic path with the real run on its witness"""
+        return _jsonable(sym_out) == _jsonable(real_out)
 
     def validate_translation(self):
         """optional: push the repo's own test inputs through shim and real numpy"""
@@ -122,15 +138,38 @@ def _jsonable(o):
 
 
 class _Profiler:
+    """records which skmatter functions were entered (sys.monitoring PY_START; events for code
+    objects outside /repo/src are disabled after their first occurrence, so the overhead is small)"""
+
+    TOOL = 3
+
     def __init__(self):
         self.codes = {}
 
-    def __call__(self, frame, event, arg):
-        if event == "call":
-            co = frame.f_code
-            fn = co.co_filename
-            if fn.startswith("/repo/src/skmatter/") and co not in self.codes:
-                self.codes[co] = (fn, co.co_qualname if hasattr(co, "co_qualname") else co.co_name, co.co_firstlineno)
+    def start(self):
+        mon = sys.monitoring
+        try:
+            mon.use_tool_id(self.TOOL, "symx-functions")
+        except ValueError:
+            pass
+        mon.register_callback(self.TOOL, mon.events.PY_START, self._cb)
+        mon.set_events(self.TOOL, mon.events.PY_START)
+
+    def stop(self):
+        mon = sys.monitoring
+        mon.set_events(self.TOOL, 0)
+        mon.register_callback(self.TOOL, mon.events.PY_START, None)
+        try:
+            mon.free_tool_id(self.TOOL)
+        except ValueError:
+            pass
+
+    def _cb(self, co, offset):
+        fn = co.co_filename
+        if fn.startswith("/repo/src/skmatter/"):
+            if co not in self.codes:
+                self.codes[co] = (fn, co.co_qualname, co.co_firstlineno)
+        return sys.monitoring.DISABLE
 
     def result(self):
         out = {}
@@ -164,6 +203,7 @@ def run_config(check, cfg, tier, idx):
         "decided": {},
         "samples": [],
         "validated": 0,
+        "validate_attempts": 0,
         "validation_mismatch": [],
         "functions": {},
         "errors": [],
@@ -177,11 +217,11 @@ def run_config(check, cfg, tier, idx):
         c._P = P
         if first[0]:
             first[0] = False
-            sys.setprofile(prof)
+            prof.start()
             try:
                 out = check.harness(c, cfg, P)
             finally:
-                sys.setprofile(None)
+                prof.stop()
         else:
             out = check.harness(c, cfg, P)
         return out
@@ -201,6 +241,18 @@ def run_config(check, cfg, tier, idx):
                             P.candidates.append((f"event:{k}", mv, abort.info))
                         elif mv is None:
                             P.unknown.append(f"event:{k}")
+                    elif k in check.probe_events:
+                        mv = c.find_model(timeout_ms=3000)
+                        if isinstance(mv, dict):
+                            try:
+                                with _unpatched():
+                                    oc, viol = check.concrete(cfg, mv)
+                                res["probed"] = res.get("probed", 0) + 1
+                                if viol:
+                                    res["violations"].append({"clause": f"probe:{k}", "detail": abort.info, "values": _jsonable(mv), "trace": list(c.trace),
+                                                              "reproduced": _jsonable(viol), "signature": check.signature(cfg, f"probe:{k}", mv, viol)})
+                            except Exception as e:  # noqa
+                                res["probe_errors"] = res.get("probe_errors", 0) + 1
                     elif k in ("infeasible", "assume-false") or k in check.expected_events:
                         pass
                     else:
@@ -231,13 +283,14 @@ def run_config(check, cfg, tier, idx):
                     else:
                         res["unconfirmed"].append(rec)
                 # witness validation of the path's discrete outcome
-                if abort is None and out is not None and res["validated"] + len(res["validation_mismatch"]) < max_validate:
-                    mv = c.find_model(timeout_ms=3000)
+                if abort is None and out is not None and res["validate_attempts"] < max_validate:
+                    res["validate_attempts"] += 1
+                    mv = c.find_model(timeout_ms=2500)
                     if isinstance(mv, dict):
                         try:
                             with _unpatched():
                                 oc, _ = check.concrete(cfg, mv)
-                            if _jsonable(oc) == _jsonable(out):
+                            if check.same_outcome(cfg, out, oc):
                                 res["validated"] += 1
                             else:
                                 res["validation_mismatch"].append({"sym": _jsonable(out), "real": _jsonable(oc), "values": _jsonable(mv)})
@@ -382,7 +435,8 @@ def finish(check, tier, seed, results, tv_errors, wall):
         sig = v["signature"]
         hit = None
         for k in known:
-            if sig == k["signature"] or (k.get("signature_prefix") and sig.startswith(k["signature_prefix"])):
+            if sig == k["signature"] or (k.get("signature_prefix") and sig.startswith(k["signature_prefix"])) or \
+                    (k.get("signature_re") and re.fullmatch(k["signature_re"], sig)):
                 hit = k
                 break
         if hit:
@@ -405,7 +459,7 @@ def finish(check, tier, seed, results, tv_errors, wall):
             json.dump({"property": check.pid, "check": check.__class__.__module__, **v}, f, indent=1)
         out_lines.append(f"VIOLATION property={check.pid} replay={path}")
         out_lines.append(f"  signature={v['signature']} clause={v['clause']} cfg={json.dumps(v['cfg'])} reproduced={json.dumps(v.get('reproduced'))[:300]}")
-    harness_err = bool(errors) or bool(inconclusive) or bool(unconfirmed)
+    harness_err = bool(errors) or bool(inconclusive) or bool(unconfirmed) or bool(mismatches)
     if total["paths"] == 0:
         harness_err = True
         errors.append("no path explored")
@@ -463,6 +517,8 @@ def finish(check, tier, seed, results, tv_errors, wall):
             print("INCONCLUSIVE:", json.dumps(v)[:400])
         for v in unconfirmed[:5]:
             print("UNCONFIRMED-CANDIDATE:", json.dumps(v)[:600])
+        for v in mismatches[:5]:
+            print("VALIDATION-MISMATCH:", json.dumps(v)[:600])
         return 3
     return 0
 
